@@ -369,6 +369,33 @@ pub fn record(args: &[String]) {
     rec_field::<Field64>(&mut out, &mut rng, small, nrand);
     rec_field::<Field128>(&mut out, &mut rng, small, nrand);
     rec_field::<Field255>(&mut out, &mut rng, small, nrand);
+    // integers <-> bit vectors (encode_as_bitvector / decode_bitvector) at every bit length around the modulus width
+    macro_rules! bitvec {
+        ($F:ty, $I:ty, $name:expr, $w:expr) => {{
+            use prio::field::FieldElementWithInteger;
+            for bits in [0usize, 1, 2, $w / 2, $w - 2, $w - 1, $w, $w + 1, 2 * $w] {
+                let top: u128 = if bits >= 128 { u128::MAX } else { (1u128 << bits) - 1 };
+                for x in [0u128, 1, top, top.wrapping_add(1), top / 2 + 1] {
+                    if x > <$I>::MAX as u128 { continue; }
+                    let xi = x as $I;
+                    let r = guarded(|| <$F>::encode_as_bitvector(xi, bits).map(|it| it.map(|e| Wf::nat(&e)).collect::<Vec<_>>()));
+                    let (ok, digits, panic) = match r { Ok(Ok(d)) => (true, d, false), Ok(Err(_)) => (false, vec![], false), Err(_) => (false, vec![], true) };
+                    out.push(json!({"ev":"bitvec_enc","f":$name,"bits":bits,"x":limbs(&BigUint::from(x)),"ok":ok,"panic":panic,
+                                    "digits":digits.iter().map(|d| if d.is_zero() { 0 } else if d.is_one() { 1 } else { 2 }).collect::<Vec<u8>>()}));
+                }
+                // decoding the all-ones vector and a 1,0,1,0,.. vector of that length
+                for pat in 0..2u8 {
+                    let v: Vec<$F> = (0..bits).map(|i| if pat == 0 || i % 2 == 0 { <$F>::one() } else { <$F>::zero() }).collect();
+                    let r = guarded(|| <$F>::decode_bitvector(&v).map(|e| Wf::nat(&e)));
+                    let (ok, z, panic) = match r { Ok(Ok(z)) => (true, z, false), Ok(Err(_)) => (false, BigUint::zero(), false), Err(_) => (false, BigUint::zero(), true) };
+                    out.push(json!({"ev":"bitvec_dec","f":$name,"bits":bits,"pat":pat,"ok":ok,"panic":panic,"z":limbs(&z)}));
+                }
+            }
+        }};
+    }
+    bitvec!(FieldPrio2, u32, "FieldPrio2", 32usize);
+    bitvec!(Field64, u64, "Field64", 64usize);
+    bitvec!(Field128, u128, "Field128", 128usize);
     let mut s = String::new();
     for e in &out {
         s.push_str(&e.to_string());
